@@ -436,7 +436,10 @@ def main():
     }
     if hasattr(mod, "evidence_extra"):
         ev["coverage"].update(mod.evidence_extra(ctx) or {})
-    json.dump(ev, open(os.path.join(EVID, pid + ".json"), "w"), indent=1)
+    # development runs (--skip-proof: mutation trials etc.) must not overwrite the registered evidence
+    evpath = os.path.join(EVID, "dev", pid + ".json") if a.skip_proof else os.path.join(EVID, pid + ".json")
+    os.makedirs(os.path.dirname(evpath), exist_ok=True)
+    json.dump(ev, open(evpath, "w"), indent=1)
     if unmodelled:
         print("WARNING: operations sent by the generator but unknown to the Lean driver (skipped): " + ", ".join(f"{k}x{v}" for k, v in sorted(unmodelled.items())))
     if status == 0:
